@@ -311,13 +311,26 @@ def param_lint(rep):
 def check(tier):
     rep = Report("C02", tier, "other")
     declare(rep)
-    param_lint(rep)
     hs = run(rep, tier)
     # the arithmetic layers' contracts, on their quick universes
     sub = []
     for mod in (c10, c11, c09, c03, c04, c14):
         mod.declare(rep)
         sub += mod.run(rep, "quick")
+    # the same contracts over probes that mimic other backends' compile-time traits (configuration type, constructors):
+    # a layer that special-cases the type of its backend shows the special case here
+    for mimic in (1, 2):
+        harness.GLOBAL_EXTRA = ["-DVERIF_PROBE_MIMIC=%d" % mimic]
+        try:
+            run(rep, "quick")
+            for mod in (c10, c11, c09, c03, c04):
+                mod.run(rep, "quick")
+        finally:
+            harness.GLOBAL_EXTRA = []
+    if not rep.violations:
+        param_lint(rep)       # exit 2 if a lookup/serialiser inspects its backend's type and no contract caught a difference
+    else:
+        rep.rule("C02.param", "no lookup or serialiser inspects the TYPE of its backend (the probe-based contracts transfer to every stack)", floor=0)
     rep.assumptions = ["composition by induction: each layer touches its backend only through the concept interface (type-checked) and, per harness, queries the view built from its own inner backend",
                        "the innermost backends (array: C01; probe: opaque) are modelled by the probe's contract 'one query per lookup with the given coordinate'"]
     rep.extra["own_instantiations"] = len(hs)
